@@ -104,4 +104,8 @@ SitesShape == pc \in {"cleave", "done"} =>
 \* behaviour generation: one CASE per (sequence, enzyme); the drivers take the product with their parameter grid
 EmitCase == pc = "sites" => PrintT(<<"CASE", seq, enz>>)
 GenOnly == pc \in {"pick", "sites"}
+\* ---- liveness (checked by Digest_live.cfg): under weak fairness of the next-state action every behaviour comes to rest
+\* in a state without successor -- the modelled procedure terminates for every input, schedule and fault inside the bounds
+FairSpec == Spec /\ WF_vars(Next)
+Halts == <>[](~ENABLED Next)
 =============================================================================
